@@ -1175,6 +1175,51 @@ def sc_ds_apply(P):
     return out
 
 
+def sc_stack_ds(P, which):
+    def gen(P):
+        out = []
+
+        def two(keys2=('a', 'b', 'c')):
+            d1 = mk_dataset(P, {'a': var_stub('A1', ('x',)), 'b': var_stub('B1', ('x', 'y')), 'c': var_stub('C1', ('y',))}, 'DS1')
+            spec = {'a': ('x',), 'b': ('x', 'y'), 'c': ('y',), 'd': ('y',)}
+            d2 = mk_dataset(P, dict((k, var_stub(k.upper() + '2', spec[k])) for k in keys2), 'DS2')
+            return [d1, d2]
+
+        def ov():
+            o = ds_overrides(P)
+            o['stack'] = lambda itp, a, k: Sym('call', 'stack', (a[0],), dict(k))
+            o['concatenate'] = lambda itp, a, k: Sym('call', 'concatenate', (a[0],), dict(k))
+            alg = lambda itp, a, k: [mk_dataset(P, dict((kk, var_stub('aligned(%s)' % vv.name, vv.attrs['dims'])) for kk, vv in d.attrs['_dict'].items()), 'aligned(%s; %s)' % (
+                d.name, ', '.join('%s=%s' % (x, render(y)) for x, y in sorted(k.items())))) for d in itp.iterate(a[0])]
+            dap = Obj('da', attrs={})
+            dap.hooks['open'] = True
+            dap.methods['align'] = lambda itp, o_, a, k: alg(itp, a, k)
+            o['da'] = dap
+            o['align'] = alg
+            return o
+        if which == 'stack_ds':
+            out.append(('two datasets, axis and keys', lambda: ([two(), 'k'], {'keys': ['p', 'q']}, {'overrides': ov()})))
+            out.append(('two datasets, axis only', lambda: ([two(), 'k'], {}, {'overrides': ov()})))
+            out.append(('dict of datasets', lambda: ([dict(zip(['p', 'q'], two())), 'k'], {}, {'overrides': ov()})))
+            out.append(('tuple of datasets', lambda: ([tuple(two()), 'k'], {'keys': ['p', 'q']}, {'overrides': ov()})))
+            out.append(('align=True', lambda: ([two(), 'k'], {'keys': ['p', 'q'], 'align': True}, {'overrides': ov()})))
+            out.append(('variables in another order', lambda: ([two(('c', 'b', 'a')), 'k'], {'keys': ['p', 'q']}, {'overrides': ov()})))
+            out.append(('different variables', lambda: ([two(('a', 'b', 'd')), 'k'], {'keys': ['p', 'q']}, {'overrides': ov()})))
+            out.append(('axis already a dimension', lambda: ([two(), 'x'], {'keys': ['p', 'q']}, {'overrides': ov()})))
+            out.append(('integer axis (invalid)', lambda: ([two(), 0], {'keys': ['p', 'q']}, {'overrides': ov()})))
+        else:
+            for ax in ('x', 'y', 0, 1, -1):
+                out.append(('two datasets along %r' % (ax,), lambda ax=ax: ([two()], {'axis': ax}, {'overrides': ov()})))
+            out.append(('two datasets, axis omitted', lambda: ([two()], {}, {'overrides': ov()})))
+            out.append(('align=True along x', lambda: ([two()], {'axis': 'x', 'align': True}, {'overrides': ov()})))
+            out.append(('align=True along 1', lambda: ([two()], {'axis': 1, 'align': True}, {'overrides': ov()})))
+            out.append(('variables in another order', lambda: ([two(('c', 'b', 'a'))], {'axis': 'x'}, {'overrides': ov()})))
+            out.append(('different variables', lambda: ([two(('a', 'b', 'd'))], {'axis': 'x'}, {'overrides': ov()})))
+            out.append(('unknown axis', lambda: ([two()], {'axis': 'zz'}, {'overrides': ov()})))
+        return out
+    return gen
+
+
 def sc_axes_from(P):
     """Axes.from_shape / from_arrays / from_dict called directly"""
     out = []
@@ -1191,6 +1236,8 @@ SCENARIOS = {
     'dimarray.dataset.Dataset._rbinary_op': (('C14',), sc_ds_ops(None, '_rbinary_op')),
     'dimarray.dataset.Dataset._unary_op': (('C14',), sc_ds_ops(None, '_unary_op')),
     'dimarray.dataset.Dataset._apply_dimarray_axis': (('C14',), sc_ds_apply),
+    'dimarray.dataset.stack_ds': (('C14', 'C12'), sc_stack_ds(None, 'stack_ds')),
+    'dimarray.dataset.concatenate_ds': (('C14', 'C12'), sc_stack_ds(None, 'concatenate_ds')),
     'dimarray.core.axes._flatten': (('C11', 'C05'), sc_flatten_labels),
     'dimarray.core.axes.MultiAxis._get_values': (('C11',), sc_multiaxis(None, '_get_values')),
     'dimarray.core.axes.MultiAxis.values': (('C11',), sc_multiaxis(None, 'values')),
